@@ -7,6 +7,7 @@ import time
 
 from ..check import Prop, Stream, Violation
 from .. import streams, daemon, gobuild
+from .. import streams_lifecycle as sl
 from .common import kv, cases, viol
 
 READS = ["ok", "other:-1", "other:0"]
@@ -61,6 +62,10 @@ def gen_failed_start(r, tier):
     return ops
 
 
+def gen_lifecycle(r, tier):
+    return sl.gen_lifecycle(r, 104 if tier == "quick" else 936)
+
+
 class C03(Prop):
     id = "C03"
     lean_modules = ["Fan2go.Props.C03"]
@@ -79,10 +84,25 @@ class C03(Prop):
                     "LTS; signal delivery latency, preemption inside a single file write and SIGKILL are not exhibited by the model")
     streams = [Stream("restore", gen_restore, parallel=8),
                # oracle-only: the su.* model belongs to C15; here only the device registers left behind matter
-               Stream("failed-start", gen_failed_start, parallel=1, exact=False, contract=lambda op, a, b: True)]
+               Stream("failed-start", gen_failed_start, parallel=1, exact=False, contract=lambda op, a, b: True),
+               # the real Run(ctx) cancelled at every phase boundary vs the single-controller slice of Model/Lifecycle.lean
+               Stream("lifecycle", gen_lifecycle, parallel=2, timeout=1800)]
 
     def oracle(self, name, ops, go):
         out = []
+        if name == "lifecycle":
+            for cops, cgo in cases(ops, go):
+                for i, (op, line) in enumerate(zip(cops, cgo)):
+                    if not op.startswith("lc.run"):
+                        continue
+                    g = kv(line)
+                    if line.startswith("panic") or g.get("ret", "").startswith("panic"):
+                        out.append(viol(f"Run(ctx) panicked ({line.split()[0]}) when its context was cancelled at {kv(op).get('stop')}", cops, cgo, upto=i))
+                    elif g.get("ret") == "hang":
+                        out.append(viol(f"Run(ctx) did not return after its context was cancelled at {g.get('at')}", cops, cgo, upto=i))
+                    elif g.get("touched") == "1" and g.get("restored") != "1":
+                        out.append(viol(f"controller cancelled at {g.get('at')} returned ({g.get('ret')}) with the fan touched and not restored: mode {g.get('mode')} PWM {g.get('pwm')}", cops, cgo, upto=i))
+            return out
         if name == "failed-start":
             for cops, cgo in cases(ops, go):
                 g = kv(cgo[-1])
@@ -111,6 +131,8 @@ class C03(Prop):
         return out
 
     def nontrivial(self, name, ops, go):
+        if name == "lifecycle":
+            return {("lc",) + tuple(c) for c in sl.coverage(ops, go)}
         s = set()
         for cops, cgo in cases(ops, go):
             if len(cops) > 1 and cops[1].startswith("w.new"):
